@@ -49,6 +49,8 @@ type Hostile struct {
 	// it has no session of its own, uses the session id that connection 0 obtained (a second
 	// connection of one client steering - or tearing down - the session of the first).
 	SameHost bool `json:"same_host,omitempty"`
+	// Cookie pins the tunnel cookie of this connection's http-get / http-post messages.
+	Cookie string `json:"cookie,omitempty"`
 }
 
 // Scenario is one C11 run.
@@ -62,7 +64,15 @@ type Scenario struct {
 	Hostile []Hostile     `json:"hostile"`
 	IdleMS  int           `json:"idle_ms"`
 	ReadMS  int           `json:"read_ms"`
+	// AppClose > 0: the application gets rid of a hostile connection itself: inside the n-th method
+	// callback (DESCRIBE ... SET_PARAMETER) of a connection from a hostile address it calls ServerConn.Close, while the peer
+	// has more requests in flight behind that one (pipelined).
+	AppClose int `json:"app_close,omitempty"`
+	// Yields: seeded holds on the connection's shutdown path.
+	Yields map[string]core.YieldSpec `json:"yields,omitempty"`
 }
+
+var connSites = []string{"sc.run.teardown.cancel", "sc.run.teardown.close", "sc.run.teardown.wait", "sc.run.teardown.session", "sc.run.teardown.closeConn"}
 
 var templates = []string{"options", "describe", "setup-udp", "setup-tcp", "play", "pause", "teardown", "getparam", "setparam", "star",
 	"announce", "setup-rec-udp", "setup-rec-tcp", "record", "frame", "frame", "garbage", "http-get", "http-post", "ws-upgrade", "ws-frame", "b64", "response"}
@@ -156,6 +166,55 @@ func gen(seed uint64, tier string) Scenario {
 		}
 		deaf = true
 	}
+	// one GET half and several POST halves with its cookie, all from one address, the POSTs a few
+	// (simulated) milliseconds apart: the second one meets a GET half that has just been paired and
+	// is on its way out (hash-derived so that no other choice moves)
+	race := false
+	if x := core.HS(seed, "c11.tunnelrace", "", 0); x%100 < 6 {
+		t0 := int((x >> 8) % 200000)
+		sc.Hostile = []Hostile{{StartUS: t0, Cookie: "R", End: "silent", Msgs: []Msg{{Tmpl: "http-get", Read: true}}}}
+		sc.Hostile[0].TLS = sc.Secure
+		at := t0 + 20000 + int((x>>24)%50000)
+		for k := 0; k < 2+int((x>>32)%3); k++ {
+			h := Hostile{StartUS: at, SameHost: true, Cookie: "R", TLS: sc.Secure, End: []string{"close", "silent", "rst"}[(x>>(40+2*uint(k)))%3],
+				Msgs: []Msg{{Tmpl: "http-post"}, {Tmpl: "b64", Read: true}, {Tmpl: "b64"}}}
+			sc.Hostile = append(sc.Hostile, h)
+			at += int(core.HS(seed, "c11.tunnelrace.gap", "", uint64(k)) % 30000)
+		}
+		deaf = false
+		race = true
+	}
+	// the application closes hostile connections from inside a request callback, with more requests
+	// pipelined behind (hash-derived so that no other choice moves)
+	if x := core.HS(seed, "c11.appclose", "", 0); x%100 < 20 {
+		sc.AppClose = 1 + int((x>>8)%3)
+		for i := range sc.Hostile {
+			hm := sc.Hostile[i].Msgs
+			for k := range hm {
+				if k >= sc.AppClose-1 {
+					hm[k].Read = false
+					hm[k].GapUS = 0
+				}
+			}
+			for k := 0; k < 4; k++ {
+				sc.Hostile[i].Msgs = append(sc.Hostile[i].Msgs, Msg{Tmpl: []string{"describe", "getparam", "describe", "options"}[k]})
+			}
+			if sc.Hostile[i].End == "deaf" && sc.Hostile[i].DeafAt >= sc.AppClose-1 {
+				sc.Hostile[i].End = "silent"
+			}
+		}
+	}
+	// seeded holds on the connections' shutdown path (an upgraded GET half, a connection the
+	// application or a session closes): widens the windows in which a second request meets a
+	// connection that is on its way out
+	if sc.AppClose > 0 || race || core.HS(seed, "c11.yields", "", 0)%100 < 30 {
+		sc.Yields = map[string]core.YieldSpec{}
+		for i, st := range connSites {
+			if core.HS(seed, "c11.yield", st, uint64(i))%100 < 50 {
+				sc.Yields[st] = core.YieldSpec{}
+			}
+		}
+	}
 	n := simnet.Config{Seed: seed ^ 0x11111111}
 	n.LatMinUS = r.Pick(10, 100, 1000)
 	n.LatMaxUS = n.LatMinUS + r.Pick(0, 50, 500)
@@ -191,6 +250,9 @@ func payloadLen(sc *Scenario) int {
 // connections of a run, so that GET and POST halves of different connections do pair (and a
 // second POST with a cookie that is already paired arrives now and then).
 func cookieOf(mu *peers.Mutator) string {
+	if v, ok := mu.Fixed["cookie"]; ok {
+		return v
+	}
 	return []string{"A", "A", "B", mu.Ent}[mu.Pick("cookie", 4)]
 }
 
@@ -352,14 +414,40 @@ func libGoroutines(self int) int {
 }
 
 func run(t *testing.T, sc Scenario) *core.Result {
-	opts := sys.Options{Seed: sc.Seed, Net: sc.Net, MaxSteps: 600000, Horizon: 20 * time.Minute}
+	opts := sys.Options{Seed: sc.Seed, Net: sc.Net, Yields: sc.Yields, MaxHold: 50 * time.Millisecond, MaxSteps: 600000, Horizon: 20 * time.Minute}
 	var summary map[string]any
 	res := sys.Run(t, opts, func(w *sys.World) {
 		w.ProbeInit("hostile_got_response", "hostile_closed_by_server", "hostile_session_opened", "hostile_tls_handshake", "http_tunnel_attempt",
-			"ws_attempt", "second_conn_same_address", "second_conn_uses_first_session", "silent_peer_expired", "hostile_stopped_reading", "deaf_peer_expired", "fresh_client_served", "good_packets", "cleanup_verified")
+			"ws_attempt", "second_conn_same_address", "second_conn_uses_first_session", "silent_peer_expired", "hostile_stopped_reading", "deaf_peer_expired", "fresh_client_served", "good_packets", "cleanup_verified", "app_closed_hostile_conn")
 		rootGID := core.GoID()
 		srvNode := w.Net.Node("srv", "10.0.0.1")
 		h := sys.NewHandler(w)
+		if sc.AppClose > 0 {
+			var hmu sync.Mutex
+			seen := map[*gortsplib.ServerConn]int{}
+			h.Hook = func(cb sys.CB) {
+				switch cb.Kind {
+				case "describe", "announce", "setup", "play", "record", "pause", "getparam", "setparam":
+				default:
+					return
+				}
+				if cb.Conn == nil {
+					return
+				}
+				ra, _ := cb.Conn.NetConn().RemoteAddr().(*net.TCPAddr)
+				if ra == nil || !ra.IP.Equal(net.ParseIP("10.0.0.100")) && !ra.IP.Equal(net.ParseIP("10.0.0.101")) && !ra.IP.Equal(net.ParseIP("10.0.0.102")) && !ra.IP.Equal(net.ParseIP("10.0.0.103")) {
+					return
+				}
+				hmu.Lock()
+				seen[cb.Conn]++
+				n := seen[cb.Conn]
+				hmu.Unlock()
+				if n == sc.AppClose {
+					w.Probe("app_closed_hostile_conn")
+					cb.Conn.Close()
+				}
+			}
+		}
 		srv := &gortsplib.Server{RTSPAddress: "10.0.0.1:8554", Handler: sys.WrapHandler(sc.Handler, h),
 			IdleTimeout: ms(sc.IdleMS), ReadTimeout: ms(sc.ReadMS), WriteTimeout: ms(sc.ReadMS)}
 		if sc.UDP {
@@ -553,6 +641,9 @@ func run(t *testing.T, sc Scenario) *core.Result {
 				}
 				rc := peers.NewRawConn(conn)
 				mu := &peers.Mutator{Seed: sc.Seed, Ent: fmt.Sprint(i)}
+				if hc.Cookie != "" {
+					mu.Fixed = map[string]string{"cookie": hc.Cookie}
+				}
 				sess := ""
 				for k, m := range hc.Msgs {
 					if m.GapUS > 0 {
@@ -860,7 +951,7 @@ func init() {
 	f.Real = []string{"gortsplib.Server, ServerConn, ServerSession, ServerStream, HTTP / WebSocket tunnel code, wrapped SRTP context; gortsplib.Client as the well-behaved and the fresh peer", "net/http request parsing, gorilla/websocket, crypto/tls"}
 	f.Simulated = []string{"TCP/UDP sockets (simnet), clock (fake), entropy", "hostile peers: scripted harness code"}
 	f.Excluded = []string{"UDP-multicast", "hostile UDP datagrams (C19 owns spoofed media)"}
-	f.Rule = "scenario = server configuration (5 handler subsets, UDP on/off, TLS on/off, seeded idle/read timeouts) x 1..4 simultaneous hostile connections, each a seeded script of 1..8 messages drawn from 22 templates (valid play/record conversations, interleaved frames in any state, HTTP tunnel GET/POST + base64 blocks, WebSocket upgrade + frames, garbage, responses), 45% mutated by 16 grammar/byte-level mutation kinds, under every chunking mode, ending in close / RST / silence, next to a well-behaved playing client; non-trivial = the cleanup comparison ran and the well-behaved client received packets; distinct = distinct canonical event log"
+	f.Rule = "scenario = server configuration (5 handler subsets, UDP on/off, TLS on/off, seeded idle/read timeouts) x 1..4 simultaneous hostile connections, each a seeded script of 1..8 messages drawn from 22 templates (valid play/record conversations, interleaved frames in any state, HTTP tunnel GET/POST + base64 blocks, WebSocket upgrade + frames, garbage, responses), 45% mutated by 16 grammar/byte-level mutation kinds, under every chunking mode, ending in close / RST / silence / deafness, next to a well-behaved playing client; second connections from the address of the first; 20%: the application calls ServerConn.Close from inside the n-th method callback of a hostile connection while more requests are pipelined behind it; 6%: one GET half and 2..4 POST halves with its cookie from one address a few simulated ms apart; seeded holds at the 5 yield sites of the connection shutdown path; non-trivial = the cleanup comparison ran and the well-behaved client received packets; distinct = distinct canonical event log"
 	f.Assumptions = []string{
 		"'within its timeouts' = IdleTimeout + ReadTimeout + 6 s (the HTTP tunnel pairing wait is a fixed 5 s) + 2 s budget after the hostile peer's last byte",
 		"cleanup is judged by comparing server registries, stream reader slots, server-node sockets and the number of library goroutines with a baseline taken while only the well-behaved client was playing, after all timeouts have elapsed",
